@@ -5,7 +5,7 @@ use crate::props::c03::{run_connection, Case};
 use engine::{Outcome, Report, Src};
 
 pub const LEVEL: &str = "exploration";
-pub const RULE: &str = "case = (connector configuration with names / credentials drawn from empty, ASCII, Latin-1, CJK, combining, emoji and mixed strings whose UTF-8 and UTF-16 lengths straddle 15/16/32; screen sizes; layouts; server-assigned identifiers). Every byte the client writes during connect, activation and shutdown is parsed by the strict reference parsers (TPKT length, X.224 LI, BER/PER lengths, GCC block lengths, CS_CORE size and 32-byte NUL-terminated client name, cb* counts and terminators, totalLength / uncompressedLength, lengthSourceDescriptor, lengthCombinedCapabilities = 4 + sum, numberCapabilities, lengthCapability and specified capability sizes, numEvents) and decoded values are compared with the configuration. Section string-lengths: every length 0..=256 of domain / user / password (ASCII and surrogate pairs) and 0..=40 of the client name. Section connection-request: x224::Client::connect for offered masks {0,1,2,3,8,0xB,0x10,0xFFFFFFFF} x restricted admin x blank credentials, the written request parsed strictly (TPKT length, LI, RDP_NEG_REQ flags / length / mask). Section ntlm-tokens: NEGOTIATE / AUTHENTICATE tokens against CHALLENGE messages whose MaxLen fields exceed Len. Non-trivial = a non-ASCII or over-long (> 15 UTF-16 units) string, or an identifier >= 0x80; distinct by hash of the case.";
+pub const RULE: &str = "case = (connector configuration with names / credentials drawn from empty, ASCII, Latin-1, CJK, combining, emoji and mixed strings whose UTF-8 and UTF-16 lengths straddle 15/16/32; screen sizes; layouts; server-assigned identifiers). Every byte the client writes during connect, activation and shutdown is parsed by the strict reference parsers (TPKT length, X.224 LI, BER/PER lengths, GCC block lengths, CS_CORE size and 32-byte NUL-terminated client name, cb* counts and terminators, totalLength / uncompressedLength, lengthSourceDescriptor, lengthCombinedCapabilities = 4 + sum, numberCapabilities, lengthCapability and specified capability sizes, numEvents) and decoded values are compared with the configuration. Section string-lengths also puts strings with a meaning of their own ('.', '..', a leading byte order mark ...) and every edge code point at the start and at the end of each string field. Section string-lengths: every length 0..=256 of domain / user / password (ASCII and surrogate pairs) and 0..=40 of the client name. Section connection-request: x224::Client::connect for offered masks {0,1,2,3,8,0xB,0x10,0xFFFFFFFF} x restricted admin x blank credentials, the written request parsed strictly (TPKT length, LI, RDP_NEG_REQ flags / length / mask). Section ntlm-tokens: NEGOTIATE / AUTHENTICATE tokens against CHALLENGE messages whose MaxLen fields exceed Len. Non-trivial = a non-ASCII or over-long (> 15 UTF-16 units) string, or an identifier >= 0x80; distinct by hash of the case.";
 
 pub fn run(c: &Case) -> Outcome {
     let mut out = run_connection(c, true);
@@ -107,6 +107,25 @@ pub fn check(rep: &Report) {
         if n <= 40 {
             let mut cfg = crate::mem::ClientCfg::simple();
             cfg.name = "n".repeat(n);
+            lens.push(Case { cfg, profile: refimpl::server::ServerProfile::simple(1004, 0x000103EA), chunk: 0, stop_after: 0, warmup: false });
+        }
+    }
+    // strings with a meaning of their own and strings that begin / end with each edge code point, in every string field
+    for field in 0..4 {
+        let mut specials: Vec<String> = crate::mem::MAGIC_STRINGS.iter().map(|m| m.to_string()).collect();
+        for ch in crate::mem::EDGE_CHARS {
+            specials.push(format!("{}ab", ch));
+            specials.push(format!("ab{}", ch));
+            specials.push(ch.to_string());
+        }
+        for v in specials {
+            let mut cfg = crate::mem::ClientCfg::simple();
+            match field {
+                0 => cfg.domain = v,
+                1 => cfg.user = v,
+                2 => cfg.password = v,
+                _ => cfg.name = v,
+            }
             lens.push(Case { cfg, profile: refimpl::server::ServerProfile::simple(1004, 0x000103EA), chunk: 0, stop_after: 0, warmup: false });
         }
     }
